@@ -55,7 +55,7 @@ def shards(tier):
 
 def floors(tier):
     f = {"cases": 15000, "cases_with_errors": 4000, "arrangements": 3000, "chains": 300, "inner_store_refs": 100,
-         "siblings_next_to_ref": 300, "hostile_name_resolutions": 2000, "recursive_cases": 1000, "recursive_with_asserting_siblings": 300, "near_identical_url_cases": 2000, "retrieval_uri_cases": 400, "id_collision_cases": 300, "reused_after_failed_retrieval": 500,
+         "siblings_next_to_ref": 300, "hostile_name_resolutions": 2000, "recursive_cases": 1000, "recursive_with_asserting_siblings": 300, "near_identical_url_cases": 2000, "retrieval_uri_cases": 400, "id_collision_cases": 300, "reused_after_failed_retrieval": 500, "local_reference_arrangements_through_cli": 150,
          "recursion_depth3plus": 200, "model_crosschecks": 2000, "max_scope_depth": 3, "transform_selfcheck_ok": 3000, "foreign_id_keywords_on_path": 500, "relative_id_in_store_doc": 200, "reused_after_validate": 5000,
          "uri_calibration": 60}
     for m in ("noid", "rootid", "rootid#", "nested"):
@@ -428,6 +428,10 @@ def run(ctx):
         id_collision_cases(ctx)
     slog = ScopeLog()
     slog.install()
+    from vf.cliutil import Scratch
+    from vf.obs import tripwire
+    scratch = Scratch("vf_c02_")
+    tripwire.allow_writes_under(scratch.dir)
     try:
         rr = random.Random(202)
         hostile_core(ctx, rr)
@@ -466,12 +470,29 @@ def run(ctx):
             ctx.count("foreign_id_keywords_on_path", info.get("foreign_id_keywords", 0))
             ctx.count("relative_id_in_store_doc", info.get("relative_id_in_store_doc", 0))
             ig = InstGen(rng, s0)
-            for k, inst in enumerate(ig.batch(4)):
+            batch = ig.batch(4)
+            for k, inst in enumerate(batch):
                 compare(ctx, d, arr.schema, arr.s0, arr.store, arr.handler_docs, inst, info, model=(k == 0))
+            if not arr.store and not arr.handler_docs and i % 3 == 0:
+                # references into the same document only: the command line (class given with --validator) is one more
+                # entry point for them - its exit status is that of the schema with the targets written in place
+                try:
+                    want_ok = [not list(impl.CLS[d](arr.s0).iter_errors(x)) for x in batch[:2]]
+                    code, err = scratch.run(d, arr.schema, batch[:2])
+                    code0, _ = scratch.run(d, arr.s0, batch[:2])
+                except (ValueError, TypeError, OverflowError, RecursionError):
+                    ctx.count("cli_skipped_not_serialisable")
+                else:
+                    ctx.count("local_reference_arrangements_through_cli")
+                    if code != code0 or (isinstance(code, int) and (code == 0) != all(want_ok)):
+                        ctx.violation("cli-differs", {"draft": d, "schema": arr.schema, "s0": arr.s0, "store": {}, "handler_docs": {}, "instance": batch[0],
+                                                      "info": info, "instances": batch[:2]},
+                                      "command line: exit status %r with the references, %r with the targets written in place (stderr %r)" % (code, code0, err[:120]))
             if i % 301 == 0:
                 ctx.sample(arr.as_case())
     finally:
         slog.uninstall()
+        scratch.close()
     ctx.notes["max_scope_depth_shard%d" % ctx.shard] = slog.max_depth
     if ctx.shard == 0:
         ctx.count("max_scope_depth", slog.max_depth)
